@@ -482,3 +482,21 @@ package table
 //@   loop 5 step keepNum >= 1 && header(keepNum) - keepNum == segASLen(param)
 //@   at-call param.GetAS()[:keepNum] requires keepNum >= 1 && segType(param) == bgp.BGP_ASPATH_ATTR_TYPE_SEQ && keepNum < segLen(param)
 //@   at-call bgp.NewPathAttributeAsPath(newIntfParams) requires as4Len <= asLen
+
+// The form sent to a 2-octet-AS peer (RFC 6793 4.2.2): every segment keeps its type and member count, a member
+// above 65535 becomes AS_TRANS (and only then), an AS4_PATH is added exactly when some member was replaced, and
+// confederation segments are never copied into it.
+//@ func UpdatePathAttrs2ByteAs
+//@   claims inv-init inv-keep step at-call at-return
+//@   loop 1 invariant len(as2Params) == __iter + 1 && __iter + 1 <= len(asAttr.Value)
+//@   loop 1 step (segType == bgp.BGP_ASPATH_ATTR_TYPE_CONFED_SEQ || segType == bgp.BGP_ASPATH_ATTR_TYPE_CONFED_SET) ==> len(as4Params) == header(len(as4Params))
+//@   loop 1 step header(mkAs4) ==> mkAs4
+//@   loop 2 invariant len(as2Path) == __iter + 1 && __iter + 1 <= len(asList)
+//@   loop 2 invariant pre(mkAs4) ==> mkAs4
+//@   loop 2 step len(as2Path) == header(len(as2Path)) + 1 && int(as2Path[len(as2Path)-1]) == (as > 65535 ? 23456 : int(as))
+//@   loop 2 step (as > 65535 || header(mkAs4)) <==> mkAs4
+//@   at-call bgp.NewAsPathParam(segType, as2Path) requires len(as2Path) == len(asList)
+//@   at-call bgp.NewPathAttributeAsPath(as2Params) requires len(as2Params) == len(asAttr.Value)
+//@   at-call bgp.NewPathAttributeAs4Path(as4Params) requires mkAs4
+//@   at-return requires asAttr != nil && !mkAs4 ==> len(msg.PathAttributes) == len(ps)
+//@   at-return requires asAttr != nil && mkAs4 ==> len(msg.PathAttributes) == len(ps) + 1
